@@ -58,6 +58,8 @@ class State:
         s.locked = getattr(self, 'locked', 0)
         s.iter = getattr(self, 'iter', None)
         s.ptr_lo = dict(getattr(self, 'ptr_lo', None) or {})
+        s.actions = getattr(self, 'actions', [])
+        s.pending_action = getattr(self, 'pending_action', None)
         return s
 
 
@@ -364,6 +366,9 @@ class Exec:
         if z3.is_true(goal):
             # trivially true after construction; still counted (cheap) so that obligation sets are stable
             pass
+        tags = [t for t in tags if t not in ('seq', 'intf')]
+        if self.mode == 'intf' and 'C02' not in tags and any(t in ('C01', 'C05') for t in tags):
+            tags = tags + ['C02']
         self.obls.append(Obligation(name, list(tags), list(st.pc), goal, where, kind, self.cur_fn, extra))
 
     def check_nonnil(self, st, p, ins, what='deref'):
@@ -474,6 +479,7 @@ class Exec:
                     havoc = c.extra['arg']
                 elif w == 'bound':
                     bound = int(c.extra['arg'])
+        invs = [c for c in invs if self.active(c)]
         if invs:
             return ('inv', invs, decs, havoc)
         if bound is not None:
@@ -704,12 +710,28 @@ class Exec:
             self.covers.append(('cover/%s/loop.%s.body' % (self.prog.short(fr.f['name']), self.loop_id(fr.f, head)), list(st.pc)))
 
     def tagstr(self, c):
-        return '+'.join(c.tags) if c.tags else 'AUX'
+        t = [x for x in c.tags if x not in ('seq', 'intf')]
+        return '+'.join(t) if t else 'AUX'
+
+    def active(self, c):
+        """Clauses tagged {seq} / {intf} apply to one execution mode only."""
+        if 'seq' in c.tags and self.mode != 'seq':
+            return False
+        if 'intf' in c.tags and self.mode != 'intf':
+            return False
+        return True
 
     def local_env(self, fr, st):
         env = {}
         for n, ent in fr.names.items():
             env[n] = ent
+        # free variables of a closure are the addresses of the captured variables
+        for fv in fr.f.get('freevars') or []:
+            n = fv['n']
+            if n not in env and n in fr.regs and isinstance(fr.regs[n].x, PAddr):
+                tt = self.prog.under(fv['t'])[1]
+                if tt['kind'] == 'pointer':
+                    env[n] = ('addr', fr.regs[n].x, tt['elem'])
         for n, v in fr.regs.items():
             if n not in env:
                 env[n] = ('val', v)
